@@ -51,6 +51,10 @@ def make_cases(chk):
                 for p2 in range(p + 1, nnodes):
                     steps.append({"op": "polyhedra", "tree": "t", "skips": [p, p2], "iter": (p + p2) % 2 == 0})
         steps.append({"op": "metrics", "tree": "t"})
+        steps.append({"op": "export", "tree": "t"})
+        # path_to_node of every arena index that can exist (valid and stale ones)
+        for idx in range(nnodes + 3):
+            steps.append({"op": "path_to_node", "tree": "t", "node": idx})
         cases.append({"id": "g%d" % i, "steps": steps, "nt": len(ts), "nnodes": nnodes,
                       "meta": {"shape": repr(sh), "in_dim": n, "scrambled": scr, "total": gen.is_total(sh)}})
     return cases
@@ -95,7 +99,8 @@ def solve_case(args):
     T = Tree(res[nt]["out"])
     stream = res[nt + 1]["out"]["items"]
     # ---- stream structure, all skip variants
-    for si in range(nt + 1, len(res) - 1):
+    met_at = [i for i, st_ in enumerate(case["steps"]) if st_["op"] == "metrics"][0]
+    for si in range(nt + 1, met_at):
         st = case["steps"][si]
         items = res[si]["out"]["items"]
         exp = expected_stream(T, set(st["skips"]))
@@ -121,9 +126,20 @@ def solve_case(args):
             if not (sh[0] <= len(items) and (sh[1] is None or len(items) <= sh[1])):
                 out["findings"].append(("stream/size_hint", "polyhedra_iter size_hint %s does not bracket %d items" % (sh, len(items))))
     # ---- metrics vs direct computation
-    met = res[-1]["out"]
+    met = res[met_at]["out"]
     if sorted(met["terminal_indices"]) != sorted(T.terminals()) or met["len"] != len(T.nodes):
         out["findings"].append(("metrics", "terminal_indices/len disagree with the exported tree"))
+    # the path of every node as path_to_node reports it = the (node, label) sequence of the exported links
+    for si in range(met_at + 2, len(res)):
+        idx = case["steps"][si]["node"]
+        r = res[si]["out"]
+        out["obl"] += 1
+        if idx in T.nodes:
+            _, want = T.path_conds(idx, conv)
+            if r["result"] != "ok" or [tuple(p) for p in r["path"]] != [tuple(p) for p in want]:
+                out["findings"].append(("path_to_node", "path_to_node(%d) = %s, the links say %s" % (idx, r.get("path", r.get("msg")), want)))
+        elif r["result"] == "ok":
+            out["findings"].append(("path_to_node", "path_to_node(%d) succeeds for an index that is not in the tree" % idx))
     # ---- solver obligations on the reported regions (non-skip stream)
     q = Q(T.in_dim)
     xs = q.xs
